@@ -120,6 +120,7 @@ PROPS["C10"] = dict(
 
 PROPS["C01"] = dict(
     title="Slice parser totality",
+    engine="kani+mirsym",
     technique="bounded model checking (Kani/CBMC, SAT): Kani's automatic panic / overflow / index / shift / division / unwinding checks over drivers with unconstrained bytes and arguments",
     level_text="Every public entry point of the no_std core is driven with symbolic bytes, lengths and unconstrained caller arguments; Kani turns every reachable panic, unwrap/expect, index or slice failure, arithmetic overflow "
                "(the crate is compiled with overflow checks and debug assertions), bad shift and division by zero into a proof obligation that the SAT solver must show unreachable for all inputs within the bound.",
@@ -127,6 +128,8 @@ PROPS["C01"] = dict(
     groups=[
         K("core", ["c01::"], functions=["file::parse_ident on slices of any length 0..=20", "NoteIterator::next with any usize alignment", "GnuHashTable::{new,find} both classes", "SysVHashTable::{new,find}", "ParsingTable::get with any index"],
           bounds="ident buffer length 0..=20; note area <= 24 bytes, align any usize; GNU table 32/36 bytes (all header words arbitrary), 2 symbols; SysV table 28 bytes; all bytes symbolic", timeout_s=900, jobs=8),
+        M(["L5", "L8", "L9", "Lbyname"], ["C01."], bounds="engine B: every panic edge (overflow assert, expect/unwrap, index) of minimal_parse/find_shdrs/find_phdrs (all header fields symbolic, no size bound) and of symbol_table, dynamic_symbol_table, "
+          "dynamic, section_headers_with_strtab, symbol_version_table, section_header_by_name on section tables of 1..3 entries with every header field symbolic is unreachable"),
         K("core", ["c15::get_raw", "c16::", "c09::", "c14::", "c13::"], tier="thorough", functions=["string table, version iterators, hash chain walks, lazy tables, notes, symbol-version queries: same harnesses as C15/C16/C09/C14/C13 (they run under Kani's panic/overflow checks)"],
           bounds="as in those properties", timeout_s=1800, jobs=8),
     ],
